@@ -11,7 +11,7 @@ MODES = ["ondemand", "preload"]
 HASH0_VALUE = bytes.fromhex("626364656667b4afc94c7cbfa843")
 
 HOSTILE_VALUES = [b"", b"x", b"1", b"2", b"3", b"a\x00b", b"\x00", b"\xff\xfe", b"\xc3\xa9t\xc3\xa9", b'q"uote"', b"new\nline",
-                  b" ", b"L" * 300, b"\xf0\x9f\x90\xb6", b"1 ", b"=", b"\xc3"]
+                  b" ", b"L" * 300, b"\xf0\x9f\x90\xb6", b"1 ", b"=", b"\xc3", b"x,y", b"%d%s", b"-1", b"0", b";", b"\n"]
 COLS = [b"a", b"b", b"c", b"d", b"e", b"f"]
 ODD_COLS = [b"", b"A", b"a b", b"\xc3\xa9", b"col_1", b"\xff"]
 
